@@ -171,8 +171,8 @@ func (d *Dumper) ValueLit(in any, optFns ...ValueLitOptFn) string {
 		// the pointed value could not be omitted as an empty struct field could
 		return fmt.Sprintf("&(%s)", d.ValueLit(rv.Elem(), append(optFns, SubValue(false))...))
 	case reflect.Struct:
-		buf := bytes.NewBufferString(d.ReflectTypeLit(tpe))
-		buf.WriteString(`{`)
+		// the type literal is rendered last: an omitted empty struct field must not register the imports of its type
+		buf := bytes.NewBufferString(`{`)
 
 		c := 0
 
@@ -208,7 +208,7 @@ func (d *Dumper) ValueLit(in any, optFns ...ValueLitOptFn) string {
 
 		buf.WriteString(`}`)
 
-		return buf.String()
+		return d.ReflectTypeLit(tpe) + buf.String()
 	case reflect.Map:
 		buf := bytes.NewBufferString(d.ReflectTypeLit(tpe))
 		buf.WriteString(`{`)
